@@ -114,7 +114,7 @@ func vf15RunSplit(cf base.ClientFactory, cs vf15SplitCase) string {
 	if msg := l.upstreamComplete(ctx); msg != "" {
 		return msg
 	}
-	return l.flushAndCompare(ctx)
+	return l.finalCompare(ctx, cs.Cut%2 == 0)
 }
 
 // TestVerifC15Splits enumerates every split point (quick: the last 64 offsets)
@@ -144,7 +144,7 @@ func TestVerifC15Splits(t *testing.T) {
 		return
 	}
 	c := vf15Evidence()
-	c.Rule("splits: complete enumeration of (server padding length, split offset of the response, data packet coalesced behind the response or not) for padding lengths {0,1,15,16,17,1308} and those that put the response end 1 or 16 bytes behind a Go allocator size class (quick: the last 64 offsets of each; thorough: every offset, plus every padding length 0..1308 x last 48 offsets); after the handshake one packet each way and a final empty packet; non-trivial = split inside the last 32 bytes (M_S or MAC_S); distinct by construction")
+	c.Rule("splits: complete enumeration of (server padding length, split offset of the response, data packet coalesced behind the response or not) for padding lengths {0,1,15,16,17,1308} and those that put the response end 1 or 16 bytes behind a Go allocator size class (quick: the last 64 offsets of each; thorough: every offset, plus every padding length 0..1308 x last 48 offsets); after the handshake one packet each way; everything that has arrived must be delivered at quiescence without further traffic (for even split offsets an empty packet follows and equality is demanded again); non-trivial = split inside the last 32 bytes (M_S or MAC_S); distinct by construction")
 	shard, nshards := ev.IntEnv("VERIF_SHARD", 0), ev.IntEnv("VERIF_NSHARDS", 1)
 	fixed, classPads := vf15SplitPads()
 	const minResp = refss.KeySize + 2*refss.MacLen
